@@ -25,6 +25,29 @@ CHECKS = {
                 text="KV.tla action property ViewsFrozen model-checked; real snapshots and iterators are held across writes, flushes and "
                      "compactions and every read through them is validated by TLC against the view frozen at creation.",
                 tech="TLA+ frozen-view spec + TLC trace validation"),
+    "C04": dict(cat="fault_enumeration", ref="5 C04",
+                text="Durable.tla (journals, tables, manifest incl. rotation, transactions, recovery arithmetic) is model-checked: CrashSafe holds "
+                     "in every reachable state for every admissible crash image. The real code decides: seeded workloads (sync/no-sync, "
+                     "transactions, oversize batches, tiny manifest limit, compactions, reopen) run on a recording storage; for EVERY "
+                     "storage-operation index x 5 image classes (unsynced tails lost / kept / cut / cut+zeros / cut+garbage), and for a second "
+                     "crash at every operation of sampled recoveries, the real DB is reopened on the image and read back; TLC "
+                     "(CrashTrace.tla) checks each distinct outcome: opened, contents = a witness set of whole batches in order containing "
+                     "every sync-acknowledged batch; recovered DBs then run a KV-contract program.",
+                tech="TLA+ durability spec + exhaustive crash-point enumeration on the real code judged by TLC"),
+    "C08": dict(cat="fault_enumeration", ref="5 C08",
+                text="KV.tla's failed-write semantics (a write that returned an error is applied now, or in limbo until a reopen decides, "
+                     "atomically) and Durable.tla with a failing journal Sync are model-checked. A fault-free reference run yields the "
+                     "per-(operation kind, file type) counts; each chosen position (create/write/sync/close/open/read/remove/setmeta x "
+                     "journal/manifest/table x index, once / three times / until healed, torn writes) is injected into a re-run that goes on "
+                     "calling, heals, closes, reopens and reads everything; TLC validates every reply against KV.tla (branching on the fate "
+                     "of failed writes).",
+                tech="TLA+ contract with limbo writes + fault-position enumeration on the real code judged by TLC trace validation"),
+    "C19": dict(cat="model_checking", ref="5 C19",
+                text="RecoverTrace.tla states the property as a monitor (Recover succeeds; a key whose newest entry survived keeps its "
+                     "state; any other key holds a once-written value or nothing; the result is an ordinary DB). Seeded workloads are shut "
+                     "down, settled (checked), their manifest/CURRENT removed, truncated or garbled and table blocks damaged; the real "
+                     "leveldb.Recover runs on the remains and TLC judges each outcome and the follow-up use of the recovered DB.",
+                tech="TLA+ monitor over recorded Recover outcomes of the real code (TLC trace validation)"),
     "C11": dict(cat="model_checking", ref="5 C11",
                 text="KV.tla transaction actions (overlay over base, atomic commit, discard, writer exclusion) model-checked; seeded "
                      "transaction bodies with internal flushes, reads inside and outside, commit/discard/Close-with-open-transaction and "
